@@ -536,7 +536,9 @@ fn drive_lru(a: &Args, tr: &mut Tracer, per_subject: &mut serde_json::Map<String
 // ================================================================ FsaCache (bounded id-keyed store)
 
 fn fsa_subjects() -> Vec<String> {
-    ["fsa:bfs", "fsa:dfs", "fsa:cf", "fsa:small_preset", "fsa:large_preset", "fsa:memeff_preset"].iter().map(|s| s.to_string()).collect()
+    // *_nc: the other value of every remaining public FsaCacheConfig field (compressed_paths false, use_hugepages
+    // true, max_memory_bytes 0) under each eviction strategy
+    ["fsa:bfs", "fsa:dfs", "fsa:cf", "fsa:bfs_nc", "fsa:dfs_nc", "fsa:cf_nc", "fsa:small_preset", "fsa:large_preset", "fsa:memeff_preset"].iter().map(|s| s.to_string()).collect()
 }
 
 fn drive_fsa(a: &Args, tr: &mut Tracer, per_subject: &mut serde_json::Map<String, Value>) {
@@ -549,6 +551,7 @@ fn drive_fsa(a: &Args, tr: &mut Tracer, per_subject: &mut serde_json::Map<String
             "small_preset" => vec![10_000],
             "large_preset" => vec![10_000_000],
             "memeff_preset" => vec![100_000],
+            "bfs_nc" | "dfs_nc" | "cf_nc" => vec![1, 2, 3, 12],
             _ => vec![1, 2, 3, 12, 25],
         };
         for &max in &maxes {
@@ -558,6 +561,17 @@ fn drive_fsa(a: &Args, tr: &mut Tracer, per_subject: &mut serde_json::Map<String
                     "bfs" => FsaCacheConfig { max_states: max, strategy: CacheStrategy::BreadthFirst, ..Default::default() },
                     "dfs" => FsaCacheConfig { max_states: max, strategy: CacheStrategy::DepthFirst, ..Default::default() },
                     "cf" => FsaCacheConfig { max_states: max, strategy: CacheStrategy::CacheFriendly, ..Default::default() },
+                    "bfs_nc" | "dfs_nc" | "cf_nc" => FsaCacheConfig {
+                        max_states: max,
+                        strategy: match var {
+                            "bfs_nc" => CacheStrategy::BreadthFirst,
+                            "dfs_nc" => CacheStrategy::DepthFirst,
+                            _ => CacheStrategy::CacheFriendly,
+                        },
+                        compressed_paths: false,
+                        use_hugepages: true,
+                        max_memory_bytes: 0,
+                    },
                     "large_preset" => FsaCacheConfig::large(),
                     "memeff_preset" => FsaCacheConfig::memory_efficient(),
                     _ => FsaCacheConfig::small(),
@@ -573,7 +587,62 @@ fn drive_fsa(a: &Args, tr: &mut Tracer, per_subject: &mut serde_json::Map<String
                 c.runs += 1;
                 let mut issued: Vec<u32> = vec![]; // the ids the cache handed out (only used to ASK about them)
                 let mut dead = false;
-                for _ in 0..steps {
+                // every run starts with the life of one zero path: attached to a state, the state removed (even runs) or
+                // evicted by filling the cache (odd runs), the id asked again, new states created until ids are recycled
+                let pre = guard(|| -> Vec<Value> {
+                    let mut evs = vec![];
+                    let probe = |cache: &FsaCache, issued: &[u32]| -> Value {
+                        let g: Vec<Value> = issued.iter().map(|&id| json!([id, opt(cache.get_state(id).map(|s| json!([s.child_base, s.parent(), s.is_terminal()]))),
+                            opt(cache.get_zero_path(id).map(|z| bytes_json(&z.get_full_path())))])).collect();
+                        json!({"op":"fsa_probe","g":g})
+                    };
+                    let live = |cache: &FsaCache, issued: &[u32]| -> Value {
+                        Value::Array(issued.iter().filter_map(|&id| cache.get_state(id).map(|s| json!([id, s.child_base, s.parent(), s.is_terminal()]))).collect())
+                    };
+                    let mut make = |cache: &mut FsaCache, issued: &mut Vec<u32>, evs: &mut Vec<Value>, n: u32| -> Option<u32> {
+                        match cache.cache_state(n, 100 + n, n % 2 == 0) {
+                            Ok(id) => {
+                                if !issued.contains(&id) {
+                                    issued.push(id);
+                                }
+                                evs.push(json!({"op":"cache_state","p":n,"cb":100 + n,"t":n % 2 == 0,"ok":true,"id":id,"live":live(cache, issued)}));
+                                Some(id)
+                            }
+                            Err(_) => {
+                                evs.push(json!({"op":"cache_state","p":n,"cb":100 + n,"t":n % 2 == 0,"ok":false,"id":0,"live":[]}));
+                                None
+                            }
+                        }
+                    };
+                    if let Some(id) = make(&mut cache, &mut issued, &mut evs, 1) {
+                        let mut z = ZeroPathData::new();
+                        let _ = z.add_segment(b"old");
+                        let ok = cache.add_zero_path(id, z).is_ok();
+                        evs.push(json!({"op":"add_zero_path","id":id,"segs":[bytes_json(b"old")],"ok":ok}));
+                        if run % 2 == 0 {
+                            evs.push(json!({"op":"remove_state","id":id,"r":cache.remove_state(id)}));
+                        }
+                        evs.push(probe(&cache, &issued));
+                        for n in 2..(4 + max.min(12) as u32) {
+                            make(&mut cache, &mut issued, &mut evs, n);
+                            evs.push(probe(&cache, &issued));
+                        }
+                    }
+                    evs
+                });
+                match pre {
+                    Ok(evs) => {
+                        for e in evs {
+                            tr.ev(e);
+                            c.events += 1;
+                        }
+                    }
+                    Err(m) => {
+                        tr.ev(json!({"op":"panic","in":"fsa","msg":m.chars().take(120).collect::<String>()}));
+                        dead = true;
+                    }
+                }
+                for _ in 0..(if dead { 0 } else { steps }) {
                     let x = rng.below(100);
                     let zp_turn = rng.chance(1, 4); // a quarter of the steps work on zero paths
                     let r = guard(|| -> Value {
@@ -696,7 +765,7 @@ fn pattern(g: u64, i: u64) -> u8 {
 }
 
 fn pc_subjects() -> Vec<String> {
-    ["pc:lru_balanced", "pc:lru_perf", "pc:lru_mem", "pc:lru_sec", "pc:lru_shards_8", "pc:lru_batch", "pc:lru_rwp", "pc:single_read", "pc:single_read_new"]
+    ["pc:lru_balanced", "pc:lru_perf", "pc:lru_mem", "pc:lru_sec", "pc:lru_shards_8", "pc:lru_huge", "pc:lru_batch", "pc:lru_rwp", "pc:single_read", "pc:single_read_new"]
         .iter()
         .map(|s| s.to_string())
         .collect()
@@ -795,8 +864,9 @@ impl Pc {
 
 fn make_pc(var: &str, cap_pages: usize, extra_bytes: usize) -> Option<Pc> {
     // a capacity that is not a multiple of the page size holds floor(capacity / PAGE_SIZE) pages
-    let cap = cap_pages * PAGE_SIZE + extra_bytes;
+    let cap = if var == "lru_huge" { zipora::cache::HUGE_PAGE_SIZE } else { cap_pages * PAGE_SIZE + extra_bytes };
     let cfg = match var {
+        "lru_huge" => PageCacheConfig::performance_optimized(), // use_huge_pages = true needs a capacity of 2 MiB
         "lru_perf" => PageCacheConfig::performance_optimized().with_huge_pages(false),
         "lru_mem" => PageCacheConfig::memory_optimized(),
         "lru_sec" => PageCacheConfig::security_optimized(),
@@ -835,6 +905,10 @@ fn drive_pc(a: &Args, tr: &mut Tracer, per_subject: &mut serde_json::Map<String,
         };
         let mut c = Counts::default();
         for cap_pages in 1..=3usize {
+            if var == "lru_huge" && cap_pages > 1 {
+                continue; // one capacity only: 2 MiB (512 pages), what huge pages require
+            }
+            let cap_pages = if var == "lru_huge" { zipora::cache::HUGE_PAGE_SIZE / PAGE_SIZE } else { cap_pages };
             for run in 0..runs {
                 let mut rng = rng0.derive(&format!("{name}/{cap_pages}/{run}"));
                 let mut pc = match guard(|| make_pc(var, cap_pages, if run % 2 == 1 { 100 } else { 0 })) {
